@@ -87,6 +87,11 @@ func (sc *Scenario) steps() []rolloutsv1beta1.CanaryStep {
 		if s.Traffic != "" {
 			st.Traffic = utilpointer.String(s.Traffic)
 		}
+		if s.Header != "" {
+			// a header-match step: requests with header user=<value> go to the canary
+			exact := gatewayv1beta1.HeaderMatchExact
+			st.Matches = []rolloutsv1beta1.HttpRouteMatch{{Headers: []gatewayv1beta1.HTTPHeaderMatch{{Type: &exact, Name: "user", Value: s.Header}}}}
+		}
 		out = append(out, st)
 	}
 	return out
